@@ -526,9 +526,19 @@ def _etable(m, rows, kt=None):
 _COL = {"ragged": "name", "str": "chrom", "int": "key"}
 
 
-def _groups_obs(gen, kt):
+def _custom_key(x):
+    """a caller-supplied `key=` for groupby: labels every group 'K:<text of the key>'"""
+    return "K:" + (x.to_string() if hasattr(x, "to_string") else str(x))
+
+
+def _groups_obs(gen, kt, custom=False):
     out = []
     for key, g in gen:
+        if custom:
+            if not str(key).startswith("K:"):
+                out.append(["label-not-from-key=", str(key), [int(x) for x in g.id]])
+                continue
+            key = str(key)[2:]
         k = int(key) if kt == "int" else LABELS.index(str(key))
         out.append([k, [int(x) for x in g.id]])
     return out
@@ -747,8 +757,11 @@ def impl(c):
             parts = [_etable(m, ch, kt) for ch in c["chunks"]] if vm == 0 else \
                 _split(_etable(m, [x for ch in c["chunks"] for x in ch], kt), [len(ch) for ch in c["chunks"]], vm)
             st = m["NpDataclassStream"](iter(parts), dataclass=E)
-            r = _groups_obs(bnp.groupby(st, col), c["kt"])
-            mem = _groups_obs(bnp.groupby(_etable(m, [x for ch in c["chunks"] for x in ch], kt), col), c["kt"])
+            import zlib
+            custom = zlib.crc32(core.canon(c["chunks"]).encode()) % 8 < 4      # the documented `key=` argument in half of the cases
+            kw = {"key": _custom_key} if custom else {}
+            r = _groups_obs(bnp.groupby(st, col, **kw), c["kt"], custom)
+            mem = _groups_obs(bnp.groupby(_etable(m, [x for ch in c["chunks"] for x in ch], kt), col, **kw), c["kt"], custom)
             return {"v": r, "mem": mem}
         if op in ("chunk_entries", "chunk_lines"):
             V = m["V"]
